@@ -13,4 +13,109 @@ HasCycle(g, main) == \E f \in Reach(g, main) \cap DOMAIN g : OnCycle(g, f)
 HasMissing(g, main) == Reach(g, main) \ DOMAIN g # {}
 \* an alias may be used once per importing file: importing the same file twice needs two aliases (the family gives fresh ones)
 Links(g, main) == ~HasCycle(g, main) /\ ~HasMissing(g, main)
+
+(***************************************************************************)
+(* Linking (C09).  A program is [main, files], files a sequence of         *)
+(* [path, imports (sequence of [alias, path]), body].  Link turns it into  *)
+(* ONE body for TshDyn/TshStatic:                                           *)
+(*  - files are visited depth first in import order, EACH FILE ONCE (a file *)
+(*    reached along several paths or under several aliases is defined once  *)
+(*    and its top-level code runs once), imports before the importer;       *)
+(*  - every name of file f is qualified "f#name", so equal names in         *)
+(*    different files never interfere; alias.Name resolves to the PUBLIC    *)
+(*    (upper-case initial) function Name of the aliased file;               *)
+(*  - a private or undefined name behind an alias, or an unknown alias,     *)
+(*    is a static error (LinkError).                                         *)
+(***************************************************************************)
+FileOf(prog, path) == CHOOSE f \in {prog.files[i] : i \in 1..Len(prog.files)} : f.path = path
+HasFile(prog, path) == \E i \in 1..Len(prog.files) : prog.files[i].path = path
+ImportGraph(prog) == [p \in {prog.files[i].path : i \in 1..Len(prog.files)} |-> [k \in 1..Len(FileOf(prog, p).imports) |-> FileOf(prog, p).imports[k].path]]
+RECURSIVE Visit(_, _, _)            \* depth-first post-order, each file once; `seen` is the sequence of files already placed
+Visit(prog, path, seen) ==
+  IF \E i \in 1..Len(seen) : seen[i] = path THEN seen
+  ELSE LET f == FileOf(prog, path)
+           RECURSIVE Through(_, _)
+           Through(k, acc) == IF k > Len(f.imports) THEN acc ELSE Through(k + 1, Visit(prog, f.imports[k].path, acc))
+       IN Append(Through(1, seen), path)
+Order(prog) == Visit(prog, prog.main, <<>>)
+Upper == "ABCDEFGHIJKLMNOPQRSTUVWXYZ"
+IsPublic(name) == name # "" /\ \E i \in 1..Len(Upper) : SubSeq(Upper, i, i) = SubSeq(name, 1, 1)
+Qn(file, name) == file \o "#" \o name
+AliasOf(f, a) == LET I == {k \in 1..Len(f.imports) : f.imports[k].alias = a} IN IF I = {} THEN "" ELSE f.imports[CHOOSE k \in I : TRUE].path
+FuncNames(f) == {f.body[i].name : i \in {j \in 1..Len(f.body) : f.body[j].k = "func"}}
+
+RECURSIVE QE(_, _), QS(_, _), QEs(_, _, _), QSs(_, _, _)
+QEs(es, f, i) == IF i > Len(es) THEN <<>> ELSE <<QE(es[i], f)>> \o QEs(es, f, i + 1)
+QSs(ss, f, i) == IF i > Len(ss) THEN <<>> ELSE <<QS(ss[i], f)>> \o QSs(ss, f, i + 1)
+QOpt(n, f) == IF n.k = "none" THEN n ELSE QE(n, f)
+QE(e, f) ==
+  CASE e.k = "var" -> [e EXCEPT !.name = Qn(f.path, @)]
+    [] e.k \in {"not", "group", "len", "itoa", "exists", "read"} -> [e EXCEPT !.e = QE(@, f)]
+    [] e.k \in {"bin", "cmp", "logic"} -> [e EXCEPT !.l = QE(@, f), !.r = QE(@, f)]
+    [] e.k = "call" -> [k |-> "call", alias |-> "", name |-> (IF e.alias = "" THEN Qn(f.path, e.name) ELSE Qn(AliasOf(f, e.alias), e.name)), args |-> QEs(e.args, f, 1)]
+    [] e.k = "slicelit" -> [e EXCEPT !.elems = QEs(@, f, 1)]
+    [] e.k = "index" -> [e EXCEPT !.x = QE(@, f), !.i = QE(@, f)]
+    [] e.k = "substr" -> [e EXCEPT !.x = QE(@, f), !.lo = QOpt(@, f), !.hi = QOpt(@, f)]
+    [] e.k = "input" -> [e EXCEPT !.prompt = QOpt(@, f)]
+    [] e.k = "copy" -> [e EXCEPT !.dst = Qn(f.path, @), !.src = QE(@, f)]
+    [] e.k = "app" -> [e EXCEPT !.chain = [i \in 1..Len(@) |-> [@[i] EXCEPT !.args = QEs(@, f, 1)]]]
+    [] OTHER -> e
+QNames(ns, f) == [i \in 1..Len(ns) |-> Qn(f.path, ns[i])]
+QS(s, f) ==
+  CASE s.k = "define" -> [s EXCEPT !.names = QNames(@, f), !.values = QEs(@, f, 1)]
+    [] s.k = "assign" -> [s EXCEPT !.names = QNames(@, f), !.values = QEs(@, f, 1)]
+    [] s.k = "compound" -> [s EXCEPT !.name = Qn(f.path, @), !.value = QE(@, f)]
+    [] s.k = "incdec" -> [s EXCEPT !.name = Qn(f.path, @)]
+    [] s.k = "setidx" -> [s EXCEPT !.name = Qn(f.path, @), !.i = QE(@, f), !.v = QE(@, f)]
+    [] s.k = "if" -> [s EXCEPT !.branches = [i \in 1..Len(@) |-> [cond |-> QE(@[i].cond, f), body |-> QSs(@[i].body, f, 1)]], !.else = QSs(@, f, 1)]
+    [] s.k = "switch" -> [s EXCEPT !.tag = QOpt(@, f), !.cases = [i \in 1..Len(@) |-> [e |-> QE(@[i].e, f), body |-> QSs(@[i].body, f, 1)]], !.default = QSs(@, f, 1)]
+    [] s.k = "for" -> [s EXCEPT !.init = (IF @.k = "none" THEN @ ELSE QS(@, f)), !.cond = QOpt(@, f), !.post = (IF @.k = "none" THEN @ ELSE QS(@, f)), !.body = QSs(@, f, 1)]
+    [] s.k = "range" -> [s EXCEPT !.i = Qn(f.path, @), !.v = (IF @ = "" THEN "" ELSE Qn(f.path, @)), !.x = QE(@, f), !.body = QSs(@, f, 1)]
+    [] s.k = "return" -> [s EXCEPT !.values = QEs(@, f, 1)]
+    [] s.k = "print" -> [s EXCEPT !.args = QEs(@, f, 1)]
+    [] s.k = "panic" -> [s EXCEPT !.e = QE(@, f)]
+    [] s.k = "write" -> [s EXCEPT !.path = QE(@, f), !.data = QE(@, f), !.append = QOpt(@, f)]
+    [] s.k = "expr" -> [s EXCEPT !.e = QE(@, f)]
+    [] s.k = "func" -> [s EXCEPT !.name = Qn(f.path, @), !.params = [i \in 1..Len(@) |-> [@[i] EXCEPT !.name = Qn(f.path, @)]], !.body = QSs(@, f, 1)]
+    [] OTHER -> s
+RECURSIVE LinkFrom(_, _, _)
+LinkFrom(prog, order, i) == IF i > Len(order) THEN <<>> ELSE QSs(FileOf(prog, order[i]).body, FileOf(prog, order[i]), 1) \o LinkFrom(prog, order, i + 1)
+Linked(prog) == LinkFrom(prog, Order(prog), 1)
+
+\* static link errors: calls through aliases
+RECURSIVE CE(_), CS(_), CEs(_, _), CSs(_, _)
+CEs(es, i) == IF i > Len(es) THEN {} ELSE CE(es[i]) \cup CEs(es, i + 1)
+CSs(ss, i) == IF i > Len(ss) THEN {} ELSE CS(ss[i]) \cup CSs(ss, i + 1)
+COpt(n) == IF n.k = "none" THEN {} ELSE CE(n)
+CE(e) ==
+  CASE e.k \in {"not", "group", "len", "itoa", "exists", "read"} -> CE(e.e)
+    [] e.k \in {"bin", "cmp", "logic"} -> CE(e.l) \cup CE(e.r)
+    [] e.k = "call" -> {[alias |-> e.alias, name |-> e.name]} \cup CEs(e.args, 1)
+    [] e.k = "slicelit" -> CEs(e.elems, 1)
+    [] e.k = "index" -> CE(e.x) \cup CE(e.i)
+    [] e.k = "substr" -> CE(e.x) \cup COpt(e.lo) \cup COpt(e.hi)
+    [] e.k = "input" -> COpt(e.prompt)
+    [] e.k = "copy" -> CE(e.src)
+    [] e.k = "app" -> UNION {CEs(e.chain[i].args, 1) : i \in 1..Len(e.chain)}
+    [] OTHER -> {}
+CS(s) ==
+  CASE s.k \in {"define", "assign", "return"} -> CEs(s.values, 1)
+    [] s.k = "compound" -> CE(s.value)
+    [] s.k = "setidx" -> CE(s.i) \cup CE(s.v)
+    [] s.k = "if" -> UNION {CE(s.branches[i].cond) \cup CSs(s.branches[i].body, 1) : i \in 1..Len(s.branches)} \cup CSs(s.else, 1)
+    [] s.k = "switch" -> COpt(s.tag) \cup UNION {CE(s.cases[i].e) \cup CSs(s.cases[i].body, 1) : i \in 1..Len(s.cases)} \cup CSs(s.default, 1)
+    [] s.k = "for" -> (IF s.init.k = "none" THEN {} ELSE CS(s.init)) \cup COpt(s.cond) \cup (IF s.post.k = "none" THEN {} ELSE CS(s.post)) \cup CSs(s.body, 1)
+    [] s.k = "range" -> CE(s.x) \cup CSs(s.body, 1)
+    [] s.k = "print" -> CEs(s.args, 1)
+    [] s.k \in {"panic", "expr"} -> CE(s.e)
+    [] s.k = "write" -> CE(s.path) \cup CE(s.data) \cup COpt(s.append)
+    [] s.k = "func" -> CSs(s.body, 1)
+    [] OTHER -> {}
+BadCall(prog, f, c) == c.alias # "" /\ (AliasOf(f, c.alias) = "" \/ ~IsPublic(c.name) \/ c.name \notin FuncNames(FileOf(prog, AliasOf(f, c.alias))))
+LinkError(prog) ==
+  LET g == ImportGraph(prog) IN
+  IF HasMissing(g, prog.main) THEN "!missing-import"
+  ELSE IF HasCycle(g, prog.main) THEN "!import-cycle"
+  ELSE IF \E i \in 1..Len(prog.files) : prog.files[i].path \in Reach(g, prog.main) /\ \E c \in CSs(prog.files[i].body, 1) : BadCall(prog, prog.files[i], c)
+       THEN "!bad-qualified-call" ELSE ""
 =============================================================================
